@@ -13,9 +13,9 @@ b1=$(cargo build --offline 2>&1 | tail -1 | grep -c Finished)
 b2=$(cargo build --offline --features websocket,value-stream,verif-hooks 2>&1 | tail -1 | grep -c Finished)
 t=$(cargo test --workspace --no-fail-fast --offline 2>&1 | grep -E "^test result" | awk '{p+=$4; f+=$6} END {print p" "f}')
 cp out/demo$N.rs tests/demo_${ID}_$N.rs
-cargo test --offline --features websocket,value-stream,verif-hooks --test demo_${ID}_$N -- --test-threads=1 > out/demo${N}_with_patch.log 2>&1; d_with=$?
+timeout 900 cargo test --offline --features websocket,value-stream,verif-hooks --test demo_${ID}_$N -- --test-threads=1 > out/demo${N}_with_patch.log 2>&1; d_with=$?
 git checkout -q -- src repe-derive Cargo.toml 2>/dev/null
-cargo test --offline --features websocket,value-stream,verif-hooks --test demo_${ID}_$N -- --test-threads=1 > out/demo${N}_without_patch.log 2>&1; d_without=$?
+timeout 900 cargo test --offline --features websocket,value-stream,verif-hooks --test demo_${ID}_$N -- --test-threads=1 > out/demo${N}_without_patch.log 2>&1; d_without=$?
 rm -f tests/demo_${ID}_$N.rs
 git checkout -q -- .
 base=$(git rev-parse --short HEAD)
